@@ -229,15 +229,34 @@ namespace igris
 
         template <typename... Args> void emplace_back(Args &&... args)
         {
-            reserve(m_size + 1);
-            igris::constructor(m_data + m_size, std::forward<Args>(args)...);
+            if (m_size == m_capacity)
+            {
+                // the arguments may refer to elements of this vector: build
+                // the new element before the buffer is replaced
+                T value(std::forward<Args>(args)...);
+                reserve(m_size + 1);
+                igris::move_constructor(m_data + m_size, std::move(value));
+            }
+            else
+            {
+                igris::constructor(m_data + m_size,
+                                   std::forward<Args>(args)...);
+            }
             m_size++;
         }
 
         void push_back(const T &ref)
         {
-            reserve(m_size + 1);
-            igris::constructor(m_data + m_size, ref);
+            if (m_size == m_capacity)
+            {
+                T value(ref); // ref may be an element of this vector
+                reserve(m_size + 1);
+                igris::move_constructor(m_data + m_size, std::move(value));
+            }
+            else
+            {
+                igris::constructor(m_data + m_size, ref);
+            }
             m_size++;
         }
 
